@@ -215,9 +215,9 @@ func NewWorld(cfg Config) *World {
 	}
 	params := types.NewParams(cfg.MaxTimeout, cfg.Multiple, minDep, decOf(cfg.Tax), decOf(cfg.Slash),
 		time.Duration(cfg.ComplaintNs), time.Duration(cfg.ArbitrationNs), 4000, "stake")
-	if err := params.Validate(); err != nil {
-		panic("harness: generated illegal params: " + err.Error())
-	}
+	// the generated parameter sets are legal by construction (each value is one the per-parameter
+	// validators of a governance change accept); whether the module's own whole-set validation agrees
+	// is for the checks to find out (C19 validates every exported genesis), not for the harness to assume
 	w.k.SetParams(w.ctx, params)
 
 	// make sure the module accounts exist as accounts (as on a chain after genesis)
